@@ -323,6 +323,40 @@ def band_curve(draw, nk, center, rlo, rhi, cw=False):
 
 
 @st.composite
+def bowl_curve(draw, nk, center, rlo, rhi, cw=False):
+    """a deep parabolic bowl closed by a lid between the same two corners:
+    'crescent' (lid = shallower arc on the same side: 2 segments, the corner
+    polygon has no area), 'lens' (lid bulging to the other side: 2 segments)
+    and 'vee' (lid = two straight pieces through a point slightly inside the
+    bowl's chord: 3 corners that run *against* the curve).  Orientation, area
+    and containment must come from the arcs, not from the corners."""
+    snap = draw(snapper(nk if nk != "mixed" else "frac"))[0]
+    w = rlo * (0.8 + 0.4 * draw(st.floats(0, 1)))
+    d = w * draw(st.sampled_from([1.4, 1.8, 2.4]))
+    lid = draw(st.sampled_from(["crescent", "lens", "vee"]))
+    e = d * draw(st.sampled_from([0.15, 0.3, 0.45]))
+    rot = draw(st.integers(0, 3))
+
+    def place(p):
+        x, y = p
+        for _ in range(rot):
+            x, y = -y, x
+        return snap((x + center[0], y + center[1] + (0.25 * d if rot == 0 else 0.0)))
+
+    A, B = place((-w, 0.0)), place((w, 0.0))
+    bowl = [A, place((0.0, -d)), B]
+    if lid == "crescent":
+        curve = [bowl, [B, place((0.0, -e)), A]]
+    elif lid == "lens":
+        curve = [bowl, [B, place((0.0, e)), A]]
+    else:
+        C = place((0.0, -e / 2))
+        curve = [bowl, [B, C], [C, A]]
+    assume(A != B and no_collapsed_segment(curve) and rg.curve_area(curve) > 0)
+    return rg.curve_reverse(curve) if cw else curve
+
+
+@st.composite
 def simple_curve(draw, nk="int", degrees=(1,), center=(0.0, 0.0), rlo=6.0, rhi=14.0,
                  cw=False, templates=True, nseg=(3, 7)):
     curve = draw(_simple_curve(nk, degrees, center, rlo, rhi, cw, templates, nseg))
@@ -336,6 +370,8 @@ def _simple_curve(draw, nk, degrees, center, rlo, rhi, cw, templates, nseg):
         return draw(fillet_curve(nk, center, rlo, rhi, cw))
     if 2 in tuple(degrees) and 1 in tuple(degrees) and nseg[0] <= 5 and draw(st.integers(0, 7)) == 0:
         return draw(band_curve(nk, center, rlo, rhi, cw))
+    if 2 in tuple(degrees) and nseg[0] <= 3 and draw(st.integers(0, 7)) == 0:
+        return draw(bowl_curve(nk, center, rlo, rhi, cw))
     if (2 in tuple(degrees) or 3 in tuple(degrees)) and nseg[0] <= 4 and draw(st.integers(0, 7)) == 0:
         return draw(arch_curve(nk, center, rlo, rhi, cw, 2 if 2 in tuple(degrees) else 3))
     if templates and tuple(degrees) == (1,) and center == (0.0, 0.0) and draw(st.integers(0, 3)) == 0:
